@@ -125,6 +125,15 @@ def _e(value: int | float | str) -> float:
     return float(value)
 
 
+def _c(value):
+    """Operand of a folded ==/!=: a HASH("...") spelling counts as its number
+    (whether a hash is spelled symbolically depends on the output mode), any
+    other value as it is."""
+    if isinstance(value, str) and value.startswith('HASH("'):
+        return _e(value)
+    return value
+
+
 def get_unop_instruction(op: str):
     return {
         "-": ("sub", lambda x: -_e(x)),
@@ -148,8 +157,8 @@ def get_binop_instruction(op: str):
         "&": ("and", lambda x, y: int(_e(x)) & int(_e(y))),
         ">>": ("srl", lambda x, y: int(_e(x)) >> int(_e(y))),
         "<<": ("sll", lambda x, y: int(_e(x)) << int(_e(y))),
-        "==": (comp("=="), lambda x, y: x == y),
-        "!=": (comp("!="), lambda x, y: x != y),
+        "==": (comp("=="), lambda x, y: _c(x) == _c(y)),
+        "!=": (comp("!="), lambda x, y: _c(x) != _c(y)),
         "<": (comp("<"), lambda x, y: _e(x) < _e(y)),
         ">": (comp(">"), lambda x, y: _e(x) > _e(y)),
         "<=": (comp("<="), lambda x, y: _e(x) <= _e(y)),
